@@ -3,7 +3,7 @@
 Every corpus function takes two small ints.  Discipline (checked by harness/_C09_oracle.py, which
 refuses anything else): one simple statement per line, no multi-line statements, attribute and
 subscript bases are plain names, subscript keys are names or constants, corpus functions are called
-by their plain name (methods: ``name.method(...)``), no exceptions, no comprehensions, no
+by their plain name (methods: ``name.method(...)``), exceptions only as an uncaught ``raise``, no comprehensions, no
 container-mutating method calls (``list.append`` is a documented limitation of the slicer,
 tests/slicer/test_expected_failures.py).  The file is compiled and instrumented by the harness.
 """
